@@ -1,0 +1,73 @@
+//go:build verif
+
+// Machine-checked contracts for package premium (comment-only; see /verif/DESIGN.md §2.5).
+
+package premium
+
+// PPM.Compute: amount * rate / 10^6, truncated toward zero, in mathematical
+// integers, for every rate within +/-10^6 ppm and every amount.
+//@ func (*PPM).Compute
+//@ property C27 C12
+//@ requires p != nil
+//@ refute exact: (p.ppmValue >= -1000000 && p.ppmValue <= 1000000 && amtSat <= 9223372036854775807) ==> mi(sat) == mi(amtSat) * mi(p.ppmValue) / 1000000
+//@ ensures formula: sat == int64(amtSat/1000000)*p.ppmValue + int64(amtSat%1000000)*p.ppmValue/1000000
+//@ assigns nothing
+
+//@ func (*PPM).Value
+//@ property C27
+//@ ensures value: (p != nil ==> result == p.ppmValue) && (p == nil ==> result == 0)
+//@ assigns nothing
+
+//@ func NewPPM
+//@ property C27
+//@ ensures fresh: result != nil && result.ppmValue == value
+//@ assigns nothing
+
+//@ func NewPremiumRate
+//@ property C27
+//@ ensures ok: result1 == nil ==> (result0 != nil && result0.asset == asset && result0.operation == operation && result0.premiumRate == premiumRate)
+//@ ensures valid: result1 == nil <==> (asset != AsserUnspecified && operation != OperationUnspecified)
+//@ assigns nothing
+
+// The bbolt-backed store is outside the verifier's reach (closures over a
+// bbolt transaction): its contract is ASSUMED. It is a map keyed by
+// (peer, asset, operation); hasRate/storedRate are the ghost view of the bucket.
+//@ func (*BBoltPremiumStore).GetRate
+//@ trusted
+//@ ensures found: result1 == nil ==> (uf("hasRate", false, peer, asset, operation) && result0 != nil && result0.asset == asset && result0.operation == operation && result0.premiumRate != nil && result0.premiumRate.ppmValue == uf("storedRate", int64(0), peer, asset, operation))
+//@ ensures missing: (result1 != nil && errors.Is(result1, ErrRateNotFound)) ==> !uf("hasRate", false, peer, asset, operation)
+//@ ensures present: uf("hasRate", false, peer, asset, operation) ==> !(result1 != nil && errors.Is(result1, ErrRateNotFound))
+//@ assigns nothing
+
+//@ func (*BBoltPremiumStore).GetDefaultRate
+//@ property C27
+//@ requires p != nil
+//@ ensures found: result1 == nil ==> (uf("hasRate", false, "default", asset, operation) && result0 != nil && result0.premiumRate != nil && result0.premiumRate.ppmValue == uf("storedRate", int64(0), "default", asset, operation))
+//@ ensures missing: (result1 != nil && errors.Is(result1, ErrRateNotFound)) ==> !uf("hasRate", false, "default", asset, operation)
+
+// Fallback chain: peer-specific rate, else stored global ("default") rate,
+// else the built-in default table.
+//@ func (*Setting).GetRate
+//@ property C27
+//@ requires p != nil && p.store != nil
+//@ ensures peer-rate: (result1 == nil && uf("hasRate", false, peerID, asset, operation)) ==> (result0 != nil && result0.premiumRate != nil && result0.premiumRate.ppmValue == uf("storedRate", int64(0), peerID, asset, operation))
+//@ ensures global-rate: (result1 == nil && !uf("hasRate", false, peerID, asset, operation) && uf("hasRate", false, "default", asset, operation)) ==> (result0 != nil && result0.premiumRate != nil && result0.premiumRate.ppmValue == uf("storedRate", int64(0), "default", asset, operation))
+//@ ensures builtin-rate: (result1 == nil && !uf("hasRate", false, peerID, asset, operation) && !uf("hasRate", false, "default", asset, operation)) ==> (result0 != nil && result0.premiumRate != nil && result0.premiumRate.ppmValue == DefaultPremiumRate[asset][operation])
+
+//@ func (*Setting).GetDefaultRate
+//@ property C27
+//@ requires p != nil && p.store != nil
+//@ ensures global-rate: (result1 == nil && uf("hasRate", false, "default", asset, operation)) ==> (result0 != nil && result0.premiumRate != nil && result0.premiumRate.ppmValue == uf("storedRate", int64(0), "default", asset, operation))
+//@ ensures builtin-rate: (result1 == nil && !uf("hasRate", false, "default", asset, operation)) ==> (result0 != nil && result0.premiumRate != nil && result0.premiumRate.ppmValue == DefaultPremiumRate[asset][operation])
+
+//@ func (*Setting).Compute
+//@ property C27 C12
+//@ requires p != nil && p.store != nil
+//@ ensures peer-rate: (result1 == nil && uf("hasRate", false, peerID, asset, operation)) ==> result0 == int64(amtSat/1000000)*uf("storedRate", int64(0), peerID, asset, operation) + int64(amtSat%1000000)*uf("storedRate", int64(0), peerID, asset, operation)/1000000
+//@ ensures global-rate: (result1 == nil && !uf("hasRate", false, peerID, asset, operation) && uf("hasRate", false, "default", asset, operation)) ==> result0 == int64(amtSat/1000000)*uf("storedRate", int64(0), "default", asset, operation) + int64(amtSat%1000000)*uf("storedRate", int64(0), "default", asset, operation)/1000000
+//@ ensures builtin-rate: (result1 == nil && !uf("hasRate", false, peerID, asset, operation) && !uf("hasRate", false, "default", asset, operation)) ==> result0 == int64(amtSat/1000000)*DefaultPremiumRate[asset][operation] + int64(amtSat%1000000)*DefaultPremiumRate[asset][operation]/1000000
+
+// The built-in default table (package initialiser).
+//@ func init
+//@ property C27
+//@ ensures defaults: DefaultPremiumRate[BTC][SwapIn] == 0 && DefaultPremiumRate[BTC][SwapOut] == 2000 && DefaultPremiumRate[LBTC][SwapIn] == 0 && DefaultPremiumRate[LBTC][SwapOut] == 1000
